@@ -143,6 +143,62 @@ func drawCase(t *rapid.T) Case {
 	return Case{Path: p, Data: wx.Enc(data), Gen: rapid.IntRange(0, 3).Draw(t, "gen") == 0}
 }
 
+// TestEnumFilterOperands is exhaustive over a small scope: filters whose operands are paths of
+// every shape (one value, several values through a union, wildcard, slice or descent, nothing,
+// the root) on either side of every comparison, on elements that hold the values in both
+// orders, as last fragment and followed by another step, on simple and gen data. An operand
+// that yields several values matches when any of them does; the evaluator has a shortcut for
+// operands it takes for single-valued.
+func TestEnumFilterOperands(t *testing.T) {
+	i := func(n int) *int { return &n }
+	k := func(s string) *string { return &s }
+	get := func(p ...jpx.Frag) *jpx.Eq { return &jpx.Eq{Op: "get", P: append(jpx.Path{{K: "at"}}, p...)} }
+	operands := []*jpx.Eq{
+		get(jpx.Frag{K: "child", Key: "a"}),
+		get(jpx.Frag{K: "union", U: []jpx.UItem{{Key: k("a")}, {Key: k("b")}}}),
+		get(jpx.Frag{K: "union", U: []jpx.UItem{{Key: k("b")}, {Key: k("a")}}}),
+		get(jpx.Frag{K: "union", U: []jpx.UItem{{Key: k("zz")}, {Key: k("b")}}}),
+		get(jpx.Frag{K: "union", U: []jpx.UItem{{Idx: i(0)}, {Idx: i(1)}}}),
+		get(jpx.Frag{K: "union", U: []jpx.UItem{{Idx: i(1)}, {Idx: i(-2)}}}),
+		get(jpx.Frag{K: "child", Key: "l"}, jpx.Frag{K: "union", U: []jpx.UItem{{Idx: i(0)}, {Idx: i(1)}}}),
+		get(jpx.Frag{K: "union", U: []jpx.UItem{{Key: k("a")}, {Key: k("l")}}}, jpx.Frag{K: "nth", N: 0}),
+		get(jpx.Frag{K: "wild"}),
+		get(jpx.Frag{K: "slice", S: []int{0, 2}}),
+		get(jpx.Frag{K: "descent"}, jpx.Frag{K: "child", Key: "a"}),
+		get(jpx.Frag{K: "child", Key: "missing"}),
+		get(),
+		{Op: "get", P: jpx.Path{{K: "root"}, {K: "nth", N: 0}, {K: "child", Key: "a"}}},
+		{Op: "const", CK: "int", CI: 1}, {Op: "const", CK: "int", CI: 2}, {Op: "const", CK: "nil"},
+	}
+	data := []any{
+		map[string]any{"a": int64(1), "b": int64(2), "l": []any{int64(1), int64(2)}},
+		map[string]any{"a": int64(2), "b": int64(1), "l": []any{int64(2), int64(1)}},
+		[]any{int64(1), int64(2)}, []any{int64(2), int64(1)},
+		map[string]any{"b": int64(2)}, int64(2), nil,
+	}
+	enc := wx.Enc(data)
+	n := 0
+	for _, op := range []string{"eq", "neq", "lt", "gt", "lte", "gte"} {
+		for _, l := range operands {
+			for _, r := range operands {
+				if l.Op == "const" && r.Op == "const" {
+					continue
+				}
+				for _, tail := range [][]jpx.Frag{nil, {{K: "child", Key: "a"}}} {
+					for _, gen := range []bool{false, true} {
+						ll, rr := *l, *r
+						p := append(jpx.Path{{K: "root"}, {K: "filter", F: &jpx.Eq{Op: op, L: &ll, R: &rr}}}, tail...)
+						vrt.Eval(suite, "get", Case{Path: p, Data: enc, Gen: gen}, Run)
+						n++
+					}
+				}
+			}
+		}
+	}
+	suite.AddExtra("filter_operand_matrix_cases", int64(n))
+	suite.Extra("filter_operand_matrix_exhaustive_over", fmt.Sprintf("6 comparisons x %d x %d operands x {last, followed by a child step} x {simple, gen}", len(operands), len(operands)))
+}
+
 func TestPropRandom(t *testing.T) {
 	vrt.Rapid(t, suite, "get", vrt.Scale(40000, 300000), drawCase, Run)
 }
